@@ -95,8 +95,22 @@ def mutations(rng, tok, key, wrap, enc, pool, pt):
         yield ("epk.crv other", set_hdr(tok, "epk", dict(epk, crv="P-384" if epk.get("crv") != "P-384" else "P-256")), key, False)
         yield ("epk absent", set_hdr(tok, "epk", None, delete=True), key, False)
         yield ("epk of another key", set_hdr(tok, "epk", K.public(pool["EC-P256-c"] if epk.get("crv") == "P-256" else pool["EC-P384-b"] if epk.get("crv") == "P-384" else pool["EC-P521-b"])), key, False)
-        yield ("apu added", set_hdr(tok, "apu", "QQ"), key, False)
-        yield ("apv added", set_hdr(tok, "apv", "QQ"), key, False)
+        for m in ("apu", "apv"):
+            if isinstance(hdr.get(m), str):
+                # party information the token was made with: every character of it is bound through the key derivation
+                v = hdr[m]
+                yield (m + " absent", set_hdr(tok, m, None, delete=True), key, False)
+                yield (m + " empty", set_hdr(tok, m, ""), key, False)
+                yield (m + " char 0", set_hdr(tok, m, flip_char(v, 0)), key, False)
+                yield (m + " last char", set_hdr(tok, m, flip_char(v, len(v) - 1)), key, False)
+                yield (m + " extended by one byte", set_hdr(tok, m, b64u(b64d(v) + b"\x00")), key, False)
+                yield (m + " truncated by one byte", set_hdr(tok, m, b64u(b64d(v)[:-1])), key, False)
+                o = "apv" if m == "apu" else "apu"
+                if isinstance(hdr.get(o), str) and hdr[o] != v:
+                    t2 = set_hdr(set_hdr(tok, m, hdr[o]), o, v)
+                    yield ("apu and apv swapped", t2, key, False)
+            elif m not in prot:
+                yield (m + " added", set_hdr(tok, m, "QQ"), key, False)
     for m in ("p2s", "iv", "tag"):
         if isinstance(hdr.get(m), str):
             # longer than what the library itself generates: every byte of the value is bound, not a prefix
@@ -165,6 +179,10 @@ def run(ctx):
         if wrap in E.PBES2 and rng.random() < 0.8:
             # keep the iteration count low for most PBES2 tokens (speed); the default is exercised too
             (jwe.setdefault("protected", {}) if rcp is None else rcp["header"])["p2c"] = 1000
+        if wrap in E.ECDH and rcp is not None and rng.random() < 0.6:
+            # party information carried by the token (changed / removed / swapped by the mutations)
+            rcp["header"]["apu"] = b64u(rng.choice([b"Alice", rng.randbytes(rng.choice([1, 7, 32]))]))
+            rcp["header"]["apv"] = b64u(rng.choice([b"Bob", rng.randbytes(rng.choice([1, 9, 33]))]))
         pt = rng.choice([b"", b"s", rng.randbytes(33), b"abc" * 100])
         a = {"jwe": jwe, "jwk": key, "pt": pt.hex(), "rand": rng.randbytes(200).hex(), "_wrap": wrap, "_enc": enc, "_zip": zip_}
         if rcp is not None:
